@@ -1151,7 +1151,36 @@ class FA:
                     if p is not None and not p["p"] and p["l"] not in rel:
                         rel.add(p["l"])
                         changed = True
+                # `r.is_err()` / `o.is_some()` ...: the tested Result / Option (seen through the shared borrow taken for the call)
+                if t["t"] == "call" and not t["dest"]["p"] and t["dest"]["l"] in rel and self._variant_test(t) is not None:
+                    r = self._variant_test_subject(t)
+                    if r is not None and r not in rel:
+                        rel.add(r)
+                        changed = True
         return rel - excluded
+
+    _VTEST = re.compile(r"core::result::Result::(is_ok|is_err)|core::option::Option::(is_some|is_none)")
+
+    @classmethod
+    def _variant_test(cls, t):
+        """(adt, variant that makes the call return true) for `Result::is_ok/is_err`, `Option::is_some/is_none`."""
+        for q in callee_paths(t):
+            m = cls._VTEST.fullmatch(q)
+            if m and len(t.get("args", [])) == 1:
+                name = m.group(1) or m.group(2)
+                return {"is_ok": ("core::result::Result", "Ok"), "is_err": ("core::result::Result", "Err"),
+                        "is_some": ("core::option::Option", "Some"), "is_none": ("core::option::Option", "None")}[name]
+        return None
+
+    def _variant_test_subject(self, t):
+        """The whole local the variant test looks at (`is_err(&x)` / `is_err(move r)` with `r = &x`), or None."""
+        l = op_local(t["args"][0])
+        if l is None:
+            return None
+        pl = self.ba.resolve_ref(l)
+        if pl is not None and not pl["p"]:
+            return pl["l"]
+        return None
 
     @staticmethod
     def _is_try_branch(t):
@@ -1262,6 +1291,13 @@ class FA:
                     for adt, var in (("core::result::Result", "Err"), ("core::option::Option", "None"), ("core::ops::control_flow::ControlFlow", "Break")):
                         if ty.startswith(adt + "<"):
                             v = ("v", adt, var, ())
+                if v is None and not d["p"] and self._variant_test(t) is not None:
+                    subj = self._variant_test_subject(t)
+                    sv = env.get(subj) if subj is not None else None
+                    if sv is not None and sv[0] == "v":
+                        adt, var = self._variant_test(t)
+                        if sv[1] == adt:
+                            v = ("b", sv[2] == var)
                 if v is None and not d["p"] and self.b.locals[d["l"]] == "bool":
                     v = ("call", bb, False)
                 self._kill(env, d["l"])
